@@ -139,3 +139,21 @@ def _selection_writers():
     if not ok2:
         return False, d2, n1 + n2
     return True, f"{n1} selection writes, all in functions under contract; view_id is never reassigned", n1 + n2
+
+
+@scan("chrono-panicking-ops")
+def _chrono_ops():
+    """C11/C21: chrono's `+` / `-` on dates PANIC when the result leaves its calendar.  Every use of these operators with a Months / Days /
+    Duration operand in base/src must be one of the reviewed sites below, where the offset is bounded by construction (a validated serial
+    number, a difference of two valid dates, a constant); user-supplied offsets go through the checked_* methods (unit dates).  A new
+    site makes the run undecided until it is reviewed or put under contract."""
+    D, F, C = "base/src/formatter/dates.rs", "base/src/functions/date_and_time.rs", "base/src/conditional_formatting.rs"
+    allowed = {(D, "from_excel_date"),            # under contract in unit dates: days in [1, 2958465]
+               (F, "excel_serial_to_ymd"),         # serial in [0, 60)
+               (F, "fn_datedif"),                  # months = difference of two valid dates
+               (C, "apply_cf_time_period")}        # today (a valid serial's date, 1900..9999) +- small constants
+    found = sites(r"[+\-]\s*(chrono::)?(Months|Days|Duration|TimeDelta)::(new|days|weeks|hours|minutes|seconds)\s*\(")
+    extra = [(f, fn, ln, t) for (f, fn, ln, t) in found if (f, fn) not in allowed]
+    if extra:
+        return False, "chrono-panicking-ops: unreviewed date arithmetic with a panicking operator: " + "; ".join(f"{f}:{ln} in {fn}: {t[:70]}" for (f, fn, ln, t) in extra[:6]), len(found)
+    return True, f"{len(found)} operator sites, all reviewed (bounded offsets)", len(found)
